@@ -101,6 +101,50 @@ def corpus():
     }
 
 
+def variants():
+    """audit classes B-E: parameter boundaries, input representations, falsy labels, rarely taken branches.
+    (problem, params) per component; run for seeds {0, 1} only"""
+    det = dict(deterministic=True, n=12)
+    g = dict(reward="goal")
+    near1 = "1048575/1048576"            # discount 1 - 2^-20
+    return {
+        "laostar": [(R(labels="falsy_str"), {}), (R(labels="unsorted", n=12), {}), (R(labels="float"), {}),
+                    (R(labels="negint", actions_as="list", init_dist="uniform"), {}), (R(tiny=True), {}),
+                    (R(), {"heuristic_constant": True, "randomize_action_order": False, "randomize_nextstate_order": False}),
+                    (R(), {"max_iterations": 3}), (R(), {"listener": True}), (R(k=1), {}), (R(reward_scale="100000"), {}),
+                    (R(labels="int"), {"second_problem_n_delta": 1})],
+        "lrtdp": [(R(labels="falsy_str"), {}), (R(labels="falsy_tuple"), {}), (R(labels="unsorted", n=12), {}),
+                  (R(gamma="1"), {}), (R(gamma=near1), {"iterations": 20}), (R(), {"randomize_action_order": False}),
+                  (R(), {"max_trial_length": 3, "iterations": 5}), (R(), {"iterations": 1}), (R(), {"listener": True}),
+                  (R(tiny=True), {}), (R(k=1), {}), (R(init_dist="det"), {}), (R(labels="int"), {"second_problem_n_delta": 1})],
+        "astar": [(R(labels="falsy_str", **det), {}), (R(labels="unsorted", **det), {}), (R(labels="float", **det), {}),
+                  (R(**det), {"tie_breaking_strategy": "fifo"}), ({"kind": "romania"}, {"tie_breaking_strategy": "lifo"}),
+                  (R(k=1, **det), {}), (R(labels="int", **det), {"second_problem_n_delta": 1})],
+        "bfs": [(R(labels="falsy_tuple", **det), {}), (R(labels="unsorted", **det), {}), (R(**det), {"randomize_action_order": False}),
+                (R(k=1, **det), {}), (R(labels="int", **det), {"second_problem_n_delta": 1})],
+        "td": [(R(labels="falsy_str", **g), {}), (R(labels="unsorted", n=12, **g), {}), (R(**g), {"rand_choose": "1"}),
+               (R(**g), {"softmax_temp": "1", "rand_choose": "1/2"}), (R(**g), {"initial_q": "callable"}), (R(**g), {"initial_q": "int1"}),
+               (R(**g), {"episodes": 1}), (R(**g), {"episodes": 0}), (R(gamma="1", **g), {}), (R(k=1, **g), {}), (R(tiny=True, **g), {}),
+               (R(labels="int", **g), {"second_problem_n_delta": 1, "learners": ["QLearning", "SARSA"]})],
+        "rmax": [(R(labels="falsy_str", **g), {}), (R(labels="unsorted", n=12, **g), {}), (R(labels="float", **g), {}),
+                 (R(**g), {"m": 1}), (R(**g), {"episodes": 1}), (R(k=1, **g), {}), (R(actions_as="list", init_dist="uniform", **g), {})],
+        "bpi": [({"kind": "tiger"}, {"nodes": 1}), ({"kind": "tiger"}, {"iterations": 12}), ({"kind": "tiger", "coherence": "1"}, {})],
+        "ga": [({"kind": "tiger"}, {"nodes": 1}), ({"kind": "tiger"}, {"iterations": 1}), ({"kind": "tiger", "gamma": "0"}, {})],
+        "semimdp": [(R(labels="falsy_str"), {}), (R(labels="unsorted", n=12), {}), (R(), {"nsim": 1}), (R(), {"include_mdp_actions": True}),
+                    (R(labels="int"), {"option_names": "falsy"}), (R(labels="falsy_tuple"), {"option_names": "int"})],
+        "implicit": [({"kind": "none"}, {"n_samples": 1}), ({"kind": "none", "events": [0, "", [], 0.5]}, {}),
+                     ({"kind": "none", "events": ["only"]}, {}), ({"kind": "none", "events": [0, -1, 2]}, {})],
+        "mdp_rollout": [(R(labels="falsy_str"), {}), (R(labels="falsy_tuple"), {}), (R(labels="unsorted", n=12), {}), (R(labels="float"), {}),
+                        (R(), {"max_steps": 0}), (R(), {"max_steps": 1}), (R(), {"nsim": 1}), (R(labels="int"), {"initial_state": "first"}),
+                        (R(labels="falsy_str"), {"initial_state": "first"}), (R(), {"initial_state": "absorbing"}), (R(), {"policy": "tabular"}),
+                        (R(init_dist="det"), {}), (R(init_dist="uniform", actions_as="list"), {}), (R(tiny=True), {})],
+        "pomdp_rollout": [({"kind": "tiger"}, {"max_steps": 0}), ({"kind": "tiger"}, {"max_steps": 1}), ({"kind": "tiger"}, {"initial_state": True}),
+                          ({"kind": "tiger"}, {"controller": "valuebased"}), ({"kind": "heavenorhell"}, {"controller": "valuebased"}),
+                          ({"kind": "loadunload"}, {"controller": "valuebased", "max_steps": 6, "initial_state": True}),
+                          ({"kind": "tiger"}, {"nodes": 1})],
+    }
+
+
 def generated(rng, tier):
     """extra problems drawn from ctx.rng (string keyed: the class on which hash order can show)"""
     k = 1 if tier == "quick" else 8
@@ -126,7 +170,7 @@ def generated(rng, tier):
 def keyclass(case):
     """'int' when neither states, actions nor option names of the problem contain a string, else 'str'"""
     p, par = case["problem"], case.get("params", {})
-    if p["kind"] == "rand" and p.get("labels", "str") in ("int", "tuple"):
+    if p["kind"] == "rand" and p.get("labels", "str") in ("int", "tuple", "falsy_tuple", "float", "negint"):
         if case["component"] == "semimdp" and par.get("option_names", "str") == "str":
             return "str"
         return "int"
@@ -154,6 +198,13 @@ def build_cases(ctx):
                     if comp == "pomdp_rollout":
                         c["scrambles"] = 4
                     cases.append(c)
+        for prob, par in variants()[comp]:
+            for seed in seeds[:2]:
+                c = {"component": comp, "problem": prob, "params": par, "seed": seed, "origin": "variant",
+                     "x": "second_problem_n_delta" in par, "t": seed == 0}
+                if comp == "pomdp_rollout":
+                    c["scrambles"] = 2
+                cases.append(c)
     # interleave so that round-robin sharding balances the expensive components
     order = sorted(range(len(cases)), key=lambda i: (i % 7, i))
     return [cases[i] for i in order]
@@ -162,14 +213,23 @@ def build_cases(ctx):
 # ----------------------------------------------------------------------------
 # execution matrix
 # ----------------------------------------------------------------------------
-def run_matrix(ctx, cases, hashseeds):
-    per = max(1, ctx.jobs // len(hashseeds))
+ORDER_SET = "0-reversed-case-order"
 
-    def one(hs):
-        return ctx.impl("c13_impl.py", {"cases": cases}, shards=per, hashseed=hs, timeout=3000)["results"]
-    with ThreadPoolExecutor(max_workers=len(hashseeds)) as ex:
-        outs = list(ex.map(one, hashseeds))
-    return dict(zip(hashseeds, outs))
+
+def run_matrix(ctx, cases, hashseeds):
+    """one set of processes per PYTHONHASHSEED, plus one more set under PYTHONHASHSEED=0 that runs the cases in REVERSED
+    order (other shard composition, other predecessors in the process): class-level caches / module state show there"""
+    sets = list(hashseeds) + [ORDER_SET]
+    per = max(1, ctx.jobs // len(sets))
+    rev = list(reversed(cases))
+
+    def one(label):
+        if label == ORDER_SET:
+            return list(reversed(ctx.impl("c13_impl.py", {"cases": rev}, shards=per, hashseed="0", timeout=3000)["results"]))
+        return ctx.impl("c13_impl.py", {"cases": cases}, shards=per, hashseed=label, timeout=3000)["results"]
+    with ThreadPoolExecutor(max_workers=len(sets)) as ex:
+        outs = list(ex.map(one, sets))
+    return dict(zip(sets, outs))
 
 
 def dig(run):
@@ -215,7 +275,11 @@ def first_diff(a, b, path=""):
 def env(hs, run):
     names = {"A": "fresh object, global generators in state 1", "B": "second fresh object, nothing re-seeded",
              "D": "fresh object, global generators put back in state 1",
-             "R": "SECOND CALL of plan_on/train_on/run_on/query on the SAME object that produced run A"}
+             "R": "SECOND CALL of plan_on/train_on/run_on/query on the SAME object that produced run A",
+             "T": "fresh object; the problem object had its cached views (state_list, matrices, reachable_states) touched first",
+             "XR": "the object of run A called on a SECOND problem (same labels, different numbers)",
+             "XF": "a fresh object on that second problem",
+             "XA": "the object of run A called on the FIRST problem again after the second one"}
     return {"PYTHONHASHSEED": hs, "run": run, "globals": names.get(run, "global generators scrambled to state %s" % run[1:])}
 
 
@@ -248,6 +312,7 @@ def analyse(ctx, cases, results, hashseeds):
         for hs in hashseeds:
             r = rs[hs]
             runs = [("A", r["A"]), ("B", r["B"])] + [("C%d" % (k + 2), c) for k, c in enumerate(r["C"])] + [("D", r["D"]), ("R", r["R"])]
+            extra = [(k, r[k]) for k in ("T", "XR", "XA", "XF") if k in r]
             counters["runs"] += len(runs)
             counters["error_runs"] += sum(1 for _, x in runs if "error" in x)
             a = r["A"]
@@ -260,6 +325,15 @@ def analyse(ctx, cases, results, hashseeds):
                         break
             if dig(r["R"]) != dig(a):
                 add(comp, "second-call-on-same-object-differs", "", i, pair_detail(case, hs, "A", a, hs, "R", r["R"]))
+            if "T" in r and dig(r["T"]) != dig(a):
+                add(comp, "differs-when-problem-object-was-used-before", "", i, pair_detail(case, hs, "A", a, hs, "T", r["T"]))
+            if "XR" in r:
+                counters["second_problem_runs"] = counters.get("second_problem_runs", 0) + 1
+                if dig(r["XR"]) != dig(r["XF"]):
+                    add(comp, "reused-object-on-second-problem-differs", "", i, pair_detail(case, hs, "XF", r["XF"], hs, "XR", r["XR"]))
+                elif dig(r["XA"]) != dig(a):
+                    add(comp, "reused-object-on-second-problem-differs", "", i, pair_detail(case, hs, "A", a, hs, "XA", r["XA"]))
+            runs = runs + extra
             changed = sorted({g for _, x in runs for g in x.get("globals_changed", [])})
             if dig(r["B"]) != dig(a):
                 explained = [k for k in fails if k[0] == comp and k[1] == "depends-on-global-generator-state" and fails[k][-1][0] == i]
@@ -273,6 +347,11 @@ def analyse(ctx, cases, results, hashseeds):
                 add(comp, "disturbs-global-generator", g, i,
                     {"case": case, "environment": {"PYTHONHASHSEED": hs}, "generator": g, "runs_that_changed_it": which,
                      "note": "state of the global generator snapshotted before and after the run differs"})
+        if ORDER_SET in results and results[ORDER_SET][i] and "A" in results[ORDER_SET][i]:
+            ro = results[ORDER_SET][i]["A"]
+            if dig(ro) != dig(rs["0"]["A"] if "0" in rs else rs[hashseeds[0]]["A"]):
+                add(comp, "depends-on-what-ran-earlier-in-the-process", "", i,
+                    pair_detail(case, "0", "A", rs.get("0", rs[hashseeds[0]])["A"], "0 (cases in reversed order)", "A", ro))
         d0 = dig(rs[hashseeds[0]]["A"])
         for hs in hashseeds[1:]:
             if dig(rs[hs]["A"]) != d0:
@@ -293,7 +372,7 @@ def report_runtime(ctx, cases, fails):
         if axis == HASH_AXIS:
             qual = "str-keys-only" if all(keyclass(c) == "str" for c in fc) else "incl-int-keys"
             exhibited.setdefault((comp, "hash"), items[0][1])
-        elif axis == CARRY_AXIS:
+        elif axis in (CARRY_AXIS, "reused-object-on-second-problem-differs"):
             qual = "seed0-only" if all(c["seed"] == 0 for c in fc) else "any-seed"
             exhibited.setdefault((comp, "carry"), items[0][1])
         else:
@@ -382,7 +461,9 @@ def run(ctx):
                   {k: ({kk: vv for kk, vv in v.items() if kk not in ("canon", "canon_head")} if isinstance(v, dict) else v)
                    for k, v in (r0 or {}).items() if k != "C"}}
     ctx.coverage.update({
-        "evaluations": len(cases) * len(hashseeds),
+        "evaluations": len(cases) * (len(hashseeds) + 1),
+        "second_problem_runs": counters.get("second_problem_runs", 0),
+        "by_origin": {o: sum(1 for c in cases if c.get("origin") == o) for o in ("corpus", "generated", "variant")},
         "distinct_nontrivial": len(nontrivial),
         "rule": "cases = component x problem x seed; problems = fixed corpus (random QuickTabularMDP/QuickMDP with str / int / tuple "
                 "states and actions, GridWorld (frozendict states), Russell-Norvig grid, GNT Fig 6.6, Romania, Tiger, LoadUnload, "
